@@ -1,0 +1,14 @@
+//go:build verif
+
+// Observation hooks for external verification harnesses. This file is compiled only with the
+// build tag "verif"; it adds read-only accessors and changes no behaviour.
+
+package strmap
+
+import "github.com/cloudwego/gopkg/internal/hash/maphash"
+
+// VerifSeed returns the hash seed of the map (set by New, or by the first load of a zero value).
+func (m *StrMap[V]) VerifSeed() maphash.Seed { return m.seed }
+
+// VerifSlots returns the number of hash slots of the currently loaded table.
+func (m *StrMap[V]) VerifSlots() int { return len(m.hashtable) }
